@@ -42,7 +42,10 @@ type C15Plan struct {
 var c15Tokens = []string{"absent", "empty", "garbage", "truncated", "valid", "expired", "expiring-then-late", "fresh-1s", "other-audience", "no-audience", "other-key",
 	"alg-none", "hs256-pubkey", "hs384-pubkey", "hs512-pubkey", "hs512-pubpem", "rs256", "no-exp", "tampered-payload"}
 var c15Cmds = []string{"submit", "cancel", "release", "force-release", "results", "status", "list"}
-var c15Types = []string{"secure", "echo", "remote-signed", "remote-unsigned", "unknown"}
+var c15Types = []string{"secure", "echo", "remote-signed", "remote-unsigned", "unknown", "secure-variant"}
+
+// spellings that are not the configured name of the protected type: they name no work type at all
+var c15Variants = []string{"Secure", "SECURE", "sEcure", "secure ", " secure", "secure\t", "secure\x00", "secure/", "./secure", "ſecure", "secure.", "Echo"}
 
 func genC15(seed uint64, tier string) any {
 	r := simnet.NewRng(seed, "c15")
@@ -54,6 +57,11 @@ func genC15(seed uint64, tier string) any {
 	for i := 0; i < n; i++ {
 		p.Cells = append(p.Cells, c15Cell{Cmd: simnet.Pick(r, c15Cmds[:5]), Conn: simnet.Pick(r, []string{"tcp", "tcp", "unix"}),
 			WType: simnet.Pick(r, append(c15Types, "secure", "secure", "remote-signed")), Token: simnet.Pick(r, append(c15Tokens, "valid", "valid", "fresh-1s")), JSON: true})
+		if c := &p.Cells[len(p.Cells)-1]; c.WType == "secure-variant" {
+			// only a submit names a work type; most interesting without any token (nothing else could stop it)
+			c.Cmd, c.Conn = "submit", "tcp"
+			c.Token = simnet.Pick(r, []string{"absent", "absent", "empty", "garbage", "valid"})
+		}
 	}
 	return p
 }
@@ -225,7 +233,7 @@ func runC15(t *testing.T, planAny any, res *simnet.Result) {
 			if cell.Cmd != "submit" && cell.Cmd != "list" {
 				unit = mkUnit(cell.WType)
 				if unit == "" {
-					if cell.WType != "unknown" {
+					if cell.WType != "unknown" && cell.WType != "secure-variant" {
 						res.Add("probe_setup_failed", 1)
 					}
 					unit = "nosuchunit"
@@ -247,6 +255,8 @@ func runC15(t *testing.T, planAny any, res *simnet.Result) {
 					req["node"], req["worktype"], req["signwork"] = "faraway", "echo", "true"
 				case "remote-unsigned":
 					req["node"], req["worktype"] = "faraway", "echo"
+				case "secure-variant":
+					req["node"], req["worktype"] = "w0", c15Variants[simnet.H(res.Seed, "variant", ci)%uint64(len(c15Variants))]
 				default:
 					req["node"], req["worktype"] = "w0", "nosuchtype"
 				}
@@ -296,8 +306,12 @@ func runC15(t *testing.T, planAny any, res *simnet.Result) {
 			res.Add("cells_checked", 1)
 			changed := diffSnap(before, after)
 			switch {
-			case cell.WType == "unknown":
-				if !refused {
+			case cell.WType == "unknown" || cell.WType == "secure-variant":
+				if cell.Cmd == "submit" && !refused {
+					res.Violate("c15:unknown-type-accepted", "cell %d %s (work type %q): reply %q", ci, key, req["worktype"], trunc(reply))
+				} else if cell.Cmd == "submit" && len(changed) > 0 {
+					res.Violate("c15:refused-but-effect|"+cell.Cmd, "cell %d %s (work type %q): refused (%q) but %v", ci, key, req["worktype"], trunc(reply), changed)
+				} else if !refused {
 					res.Violate("c15:unknown-type-accepted", "cell %d %s: reply %q", ci, key, trunc(reply))
 				}
 			case protected && cell.Conn != "unix" && !valid && !undecided:
